@@ -17,7 +17,7 @@ def run(r):
                 ("F1", 4, AB, 64, [(s + i) % 64 for i in range(4)], {"maxcalls": 900}),
                 ("HID2", 4, ABCD, 8, [(s + i) % 8 for i in range(3)], {}),
                 ("OPT", 3, AB, 1, [0], {})]
-        rnd = [(600, dict(maxlen=5, share=1, named=2)), (300, dict(maxlen=6, share=1, named=0, monotone=1, seed_off=1)),
+        rnd = [(600, dict(maxlen=5, share=1, named=2, trees=1)), (300, dict(maxlen=6, share=1, named=0, monotone=1, seed_off=1)),
                (200, dict(maxlen=4, share=1, named=2, base=0, seed_off=2))]
     else:
         fams = [("CAT", 3, AB, 1, [0], {}),
@@ -26,14 +26,14 @@ def run(r):
                 ("NM", 3, AB, 24, [s % 24], {}),
                 ("HID2", 3, ABCD, 12, [s % 12], {}),
                 ("OPT", 3, AB, 4, [s % 4], {})]
-        rnd = [(120, dict(maxlen=5, share=1, named=2))]
-    parsefam.run_plan(r, {"props": ["C01"], "families": fams, "random": rnd})
+        rnd = [(120, dict(maxlen=5, share=1, named=2, trees=1))]
+    parsefam.run_plan(r, {"props": ["C01"], "families": fams, "random": rnd, "trees": True})
     r.rule = ("model->code: every (grammar, input) of the explored family slices, root + every memoised nonterminal at every position "
               "on the warm context, real end positions compared with Derivation!Ends and outcomes with ParsleyMachine; code->model: random "
               "admissible grammars (all combinators, sharing bias) validated event by event. distinct_nontrivial = exported cases in which "
               "the oracle derives something for at least one ask")
     r.assumptions = ["bounded grammar families and input lengths; runs cut by the step/result budget are not judged (counted in coverage)",
-                     "end positions are compared for every grammar; full trees are compared in the tree-level check of the thorough tier",
+                     "completeness is decided on end positions; soundness on full trees (Derivation!ValidTree on every tree of every top-level call); equality of tree SETS is not checked",
                      "admissibility (stratification) is re-asserted by TLC for every judged grammar"]
 
 
